@@ -559,7 +559,9 @@ func genConnServe(r *RNG, n int, op string, emit func(string)) {
 
 // genConnAll: every event sequence of length 1..L (op "cnall<L>") over the alphabet
 // {message, first part of a message / its rest, undecodable message with trailing data,
-//  CloseNotify, peer EOF, read error, read timeout, local Close, handler return},
+//
+//	CloseNotify, peer EOF, read error, read timeout, local Close, handler return},
+//
 // on one connection; events the transport cannot perform any more (after EOF / error / Close)
 // are not enumerated, and at most two CloseNotify requests per sequence.
 func genConnAll(r *RNG, op string, emit func(string)) {
@@ -568,12 +570,12 @@ func genConnAll(r *RNG, op string, emit func(string)) {
 		L = 4
 	}
 	type st struct {
-		evs   []string
-		done  bool
-		id    uint32
-		rest  []byte
-		nreq  int
-		coal  bool
+		evs  []string
+		done bool
+		id   uint32
+		rest []byte
+		nreq int
+		coal bool
 	}
 	alphabet := []string{"D", "F", "B", "N", "E", "R", "T", "L", "H"}
 	var rec func(s st)
